@@ -289,6 +289,21 @@ class Core:
         inner["temps"] = set(ctx.get("temps", ())) | {tmp}
         return pad + f"Py.H.call ext {lean_str(wname)} [{', '.join(args)}] env effs fun {tmp} env effs =>\n", v2, inner
 
+    def first_method_call(self, test, ctx):
+        """the effectful call of a translated method a condition evaluates first, if any: `call`, `not call`, `call <op> …`"""
+        def eff(n):
+            if not isinstance(n, ast.Call):
+                return False
+            tgt = self.resolve_call(ctx["cls"], n)
+            return tgt is not None and self.is_effectful(tgt[0], tgt[1])
+        if eff(test):
+            return test
+        if isinstance(test, ast.UnaryOp) and isinstance(test.op, ast.Not) and eff(test.operand):
+            return test.operand
+        if isinstance(test, ast.Compare) and eff(test.left):
+            return test.left
+        return None
+
     def only_dropped(self, stmts):
         for st in stmts:
             if isinstance(st, ast.Pass):
@@ -591,6 +606,28 @@ class Core:
         if isinstance(s, ast.Return) and s.value is not None and self.elem_call(s.value, ctx) is not None:
             wname, args = self.elem_call(s.value, ctx)
             return pad + f"Py.H.call ext {lean_str(wname)} [{', '.join(args)}] env effs fun t_ret env effs =>\n" + pad + f"{P}ret t_ret{EV} effs"
+        if isinstance(s, (ast.Assign, ast.Return)) and s.value is not None and not isinstance(s.value, ast.Call) \
+                and (isinstance(s, ast.Return) or len(s.targets) == 1) \
+                and self.first_elem_call(s.value, ctx) is None and self.first_method_call(s.value, ctx) is not None:
+            # `x = self._helper(...) is True` with a helper that has effects: the call is made first, its value is a temporary
+            import copy
+            val2 = copy.deepcopy(s.value)
+            callnode = self.first_method_call(val2, ctx)
+            tgt = self.resolve_call(cls, callnode)
+            self.jp += 1
+            tmp = f"t_call{self.jp}"
+
+            class SubA(ast.NodeTransformer):
+                def visit_Call(self2, node):
+                    return ast.copy_location(ast.Name(id=tmp, ctx=ast.Load()), node) if node is callnode else self2.generic_visit(node)
+            text = self.call_text(tgt, callnode, ctx)
+            val2 = SubA().visit(val2)
+            news = ast.Assign(targets=s.targets, value=val2) if isinstance(s, ast.Assign) else ast.Return(value=val2)
+            ast.copy_location(news, s)
+            ast.fix_missing_locations(news)
+            inner = dict(ctx)
+            inner["temps"] = set(ctx.get("temps", ())) | {tmp}
+            return (pad + f"{P}bind ({text} effs) fun {tmp}{benv} effs =>\n" + self.block([news] + rest, k, inner, ind))
         if isinstance(s, ast.Assign) and len(s.targets) == 1 and self.elem_call(s.value, ctx) is None \
                 and self.first_elem_call(s.value, ctx) is not None:
             pre, val2, inner = self.hoist(s.value, ctx, pad)
@@ -623,6 +660,44 @@ class Core:
                 self.expr(a, ctx)      # (the arguments must be translatable; the list they select is the world's)
             ctx.setdefault("locallists", {})[s.targets[0].id] = self.list_calls[dotted(s.value.func)]
             return self.block(rest, k, ctx, ind)
+        if isinstance(s, ast.Assign) and len(s.targets) > 1 and all(isinstance(t, (ast.Name, ast.Attribute)) for t in s.targets):
+            # `a = b = e`: e is evaluated once, the targets are assigned left to right
+            self.jp += 1
+            tmpn = f"chain{self.jp}"
+            ctx["locals"].add(tmpn)
+            stmts2 = [ast.Assign(targets=[ast.Name(id=tmpn, ctx=ast.Store())], value=s.value)]
+            for t in s.targets:
+                stmts2.append(ast.Assign(targets=[t], value=ast.Name(id=tmpn, ctx=ast.Load())))
+            for n2 in stmts2:
+                ast.copy_location(n2, s)
+                ast.fix_missing_locations(n2)
+            return pad + f"let v_{tmpn} : Py.V := Py.V.exc \"UnboundLocalError\"\n" + self.block(stmts2 + rest, k, ctx, ind)
+        if isinstance(s, ast.Assign) and len(s.targets) == 1 and isinstance(s.targets[0], ast.Tuple) and isinstance(s.value, ast.IfExp) \
+                and isinstance(s.value.body, ast.Tuple) and isinstance(s.value.orelse, ast.Tuple):
+            # `x, y = (a, b) if c else (p, q)`
+            news = ast.If(test=s.value.test, body=[ast.Assign(targets=s.targets, value=s.value.body)],
+                          orelse=[ast.Assign(targets=s.targets, value=s.value.orelse)])
+            ast.copy_location(news, s)
+            ast.fix_missing_locations(news)
+            return self.block([news] + rest, k, ctx, ind)
+        if isinstance(s, ast.Assign) and len(s.targets) == 1 and isinstance(s.targets[0], ast.Tuple) and isinstance(s.value, ast.Tuple) \
+                and len(s.targets[0].elts) == len(s.value.elts) and any(isinstance(t, ast.Attribute) for t in s.targets[0].elts) \
+                and all(isinstance(t, (ast.Name, ast.Attribute)) for t in s.targets[0].elts):
+            # `self.a, self.b = e1, e2`: the right-hand sides are evaluated first, then the targets are assigned left to right
+            stmts2, pre = [], ""
+            for v in s.value.elts:
+                self.jp += 1
+                tmpn = f"tup{self.jp}"
+                ctx["locals"].add(tmpn)
+                pre += pad + f"let v_{tmpn} : Py.V := Py.V.exc \"UnboundLocalError\"\n"
+                stmts2.append(ast.Assign(targets=[ast.Name(id=tmpn, ctx=ast.Store())], value=v))
+            names = [st.targets[0].id for st in stmts2]
+            for t, nm in zip(s.targets[0].elts, names):
+                stmts2.append(ast.Assign(targets=[t], value=ast.Name(id=nm, ctx=ast.Load())))
+            for n2 in stmts2:
+                ast.copy_location(n2, s)
+                ast.fix_missing_locations(n2)
+            return pre + self.block(stmts2 + rest, k, ctx, ind)
         if isinstance(s, (ast.Break, ast.Continue)):
             if "loop" not in ctx:
                 raise Untranslatable(f"{where()}: {type(s).__name__} outside a translated loop")
@@ -788,6 +863,25 @@ class Core:
                 return (pad + f"{P}bind ({self.call_text(tgt, call, ctx)} effs) fun _{benv} effs =>\n"
                         + self.block(rest, k, ctx, ind))
             raise Untranslatable(f"{where()}: call of {d} is neither ignored, an effect, nor a translated method")
+        if isinstance(s, ast.If) and self.first_elem_call(s.test, ctx) is None and self.first_method_call(s.test, ctx) is not None:
+            # `if self._helper(...)` with a helper that has effects: the call is made first, its value is a temporary
+            import copy
+            test2 = copy.deepcopy(s.test)
+            callnode = self.first_method_call(test2, ctx)
+            tgt = self.resolve_call(cls, callnode)
+            self.jp += 1
+            tmp = f"t_call{self.jp}"
+
+            class SubM(ast.NodeTransformer):
+                def visit_Call(self2, node):
+                    return ast.copy_location(ast.Name(id=tmp, ctx=ast.Load()), node) if node is callnode else self2.generic_visit(node)
+            text = self.call_text(tgt, callnode, ctx)
+            news = ast.If(test=SubM().visit(test2), body=s.body, orelse=s.orelse)
+            ast.copy_location(news, s)
+            ast.fix_missing_locations(news)
+            inner = dict(ctx)
+            inner["temps"] = set(ctx.get("temps", ())) | {tmp}
+            return (pad + f"{P}bind ({text} effs) fun {tmp}{benv} effs =>\n" + self.block([news] + rest, k, inner, ind))
         if isinstance(s, ast.If) and self.first_elem_call(s.test, ctx) is not None:
             # the call is an opaque call into the world: it is made first (Python evaluates it first), its value is a temporary
             callnode = self.first_elem_call(s.test, ctx)
